@@ -14,6 +14,8 @@ import (
 	"time"
 )
 
+const firstTimeoutMs = 2500
+
 type Result int
 
 const (
@@ -27,13 +29,18 @@ func (r Result) String() string { return [...]string{"sat", "unsat", "unknown"}[
 // Solver drives one live `z3 -in` process (incremental, push/pop). Queries that mention
 // floating-point terms are additionally raced against one-shot cvc5 / z3 processes (portfolio).
 type Solver struct {
-	cmd    *exec.Cmd
-	in     io.WriteCloser
-	out    *bufio.Reader
-	script strings.Builder // path-level commands since PathBegin (for portfolio / dumps)
-	hasFP  bool
+	cmd        *exec.Cmd
+	in         io.WriteCloser
+	out        *bufio.Reader
+	lines      chan string
+	gen        int
+	script     strings.Builder // path-level commands since PathBegin (for portfolio / dumps)
+	hasFP      bool
+	queryHasFP bool
 
 	TimeoutMs  int
+	Restarts   int
+	inPath     bool
 	Queries    int
 	Unknowns   int
 	Errors     []string
@@ -67,6 +74,19 @@ func (s *Solver) start() error {
 	if err := s.cmd.Start(); err != nil {
 		return err
 	}
+	ch := make(chan string, 1024)
+	s.lines = ch
+	rd := s.out
+	go func() {
+		for {
+			line, err := rd.ReadString('\n')
+			if err != nil {
+				close(ch)
+				return
+			}
+			ch <- strings.TrimRight(line, "\r\n")
+		}
+	}()
 	s.raw(fmt.Sprintf("(set-option :timeout %d)\n(set-option :model.completion true)\n", s.TimeoutMs))
 	return nil
 }
@@ -91,22 +111,46 @@ func (s *Solver) raw(text string) { io.WriteString(s.in, text) }
 
 // sync sends an echo marker and returns all output lines before it.
 func (s *Solver) sync() []string {
+	l, _ := s.syncDeadline(time.Duration(s.TimeoutMs+30000) * time.Millisecond)
+	return l
+}
+
+// syncDeadline is sync with a wall-clock watchdog: z3's own :timeout is not honoured inside some
+// preprocessing steps. On expiry the process is killed and restarted with the path's script
+// replayed; the second result is false.
+func (s *Solver) syncDeadline(d time.Duration) ([]string, bool) {
 	s.raw("(echo \"@@done@@\")\n")
 	var lines []string
+	timer := time.NewTimer(d)
+	defer timer.Stop()
 	for {
-		line, err := s.out.ReadString('\n')
-		if err != nil {
-			s.Errors = append(s.Errors, "solver died: "+err.Error())
-			lines = append(lines, "(error \"solver died\")")
-			return lines
+		select {
+		case line, ok := <-s.lines:
+			if !ok {
+				s.Errors = append(s.Errors, "solver died")
+				lines = append(lines, "(error \"solver died\")")
+				s.restartWithScript()
+				return lines, true
+			}
+			if strings.Contains(line, "@@done@@") {
+				return lines, true
+			}
+			if line != "" {
+				lines = append(lines, line)
+			}
+		case <-timer.C:
+			s.Restarts++
+			s.restartWithScript()
+			return nil, false
 		}
-		line = strings.TrimRight(line, "\r\n")
-		if strings.Contains(line, "@@done@@") {
-			return lines
-		}
-		if line != "" {
-			lines = append(lines, line)
-		}
+	}
+}
+
+func (s *Solver) restartWithScript() {
+	s.restart()
+	if s.inPath {
+		s.raw("(push 1)\n")
+		s.raw(s.script.String())
 	}
 }
 
@@ -114,11 +158,13 @@ func (s *Solver) sync() []string {
 func (s *Solver) PathBegin() {
 	s.script.Reset()
 	s.hasFP = false
+	s.inPath = true
 	s.raw("(push 1)\n")
 }
 
 // PathEnd closes the path scope.
 func (s *Solver) PathEnd() {
+	s.inPath = false
 	s.raw("(pop 1)\n")
 	for _, l := range s.sync() {
 		if strings.Contains(l, "(error") {
@@ -205,12 +251,32 @@ func (s *Solver) Check(extra *Term, want []*Term, final bool) (Result, []uint64)
 		os.WriteFile(fmt.Sprintf("%s/q%05d.smt2", s.DumpDir, s.dumpN), []byte(s.script.String()+strings.TrimPrefix(queryText, "(push 1)\n")), 0o644)
 	}
 
-	if s.hasFP || (extra != nil && termHasFP(extra, map[*Term]bool{})) {
+	s.queryHasFP = s.hasFP || (extra != nil && termHasFP(extra, map[*Term]bool{}))
+	// Give the live incremental z3 a short budget first; if it does not answer definitively, race
+	// one-shot solvers (their preprocessing differs from incremental mode by orders of magnitude on
+	// multiply-by-constant chains and on floating point; probes in DESIGN.md 2.2).
+	s.raw(fmt.Sprintf("(set-option :timeout %d)\n", firstTimeoutMs))
+	s.raw(queryText)
+	lines, alive := s.syncDeadline(time.Duration(firstTimeoutMs+1500) * time.Millisecond)
+	if !alive {
+		// live solver was killed and restarted with the path script replayed
 		return s.portfolio(queryText, want)
 	}
-
-	s.raw(queryText)
-	lines := s.sync()
+	definitive := false
+	for _, l := range lines {
+		if l == "sat" || l == "unsat" {
+			definitive = true
+		}
+	}
+	for _, l := range lines {
+		if strings.Contains(l, "(error") {
+			definitive = false
+		}
+	}
+	if !definitive {
+		s.raw("(pop 1)\n")
+		return s.portfolio(queryText, want)
+	}
 	res := Unknown
 	for _, l := range lines {
 		switch {
@@ -270,7 +336,7 @@ func (s *Solver) portfolio(queryText string, want []*Term) (Result, []uint64) {
 	}
 	ctx, cancel := context.WithTimeout(context.Background(), time.Duration(s.TimeoutMs)*time.Millisecond)
 	defer cancel()
-	ch := make(chan ans, 3)
+	ch := make(chan ans, 4)
 	run := func(eng string, args ...string) {
 		cmd := exec.CommandContext(ctx, args[0], args[1:]...)
 		cmd.Stdin = strings.NewReader(text)
@@ -286,12 +352,17 @@ func (s *Solver) portfolio(queryText string, want []*Term) (Result, []uint64) {
 		}
 		ch <- ans{eng, r, o}
 	}
+	n := 3
 	go run("cvc5", "cvc5", "--lang=smt2", "--fp-exp", "-")
-	go run("z3", "z3", "-in")
+	go run("z3-oneshot", "z3", "-in")
 	go run("z3-new", "z3-new", "-in")
+	if !s.queryHasFP {
+		n++
+		go run("cvc5-bv-as-int", "cvc5", "--lang=smt2", "--solve-bv-as-int=sum", "-")
+	}
 	res := Unknown
 	var vals []uint64
-	for i := 0; i < 3; i++ {
+	for i := 0; i < n; i++ {
 		a := <-ch
 		if a.res == Unknown {
 			continue
